@@ -149,7 +149,8 @@ def inline_once(unit, fd, bid, idx, call_id, tgt, instance, skip=0):
             entry_succ = [s for s in b["succs"]]
     B["elems"] = B["elems"][:idx] + binds
     first = [s["b"] for s in entry_succ if s["b"] >= 0]
-    B["succs"] = [{"b": cmap[first[0]] if first else boff, "reach": True}]
+    # an empty callee (entry leads straight to its exit) continues directly after the call
+    B["succs"] = [{"b": cmap[first[0]] if first and first[0] != tgt["exit"] else boff, "reach": True}]
     newb = [b2]
     for b in tgt["blocks"]:
         if b["id"] in (tgt["entry"],):
